@@ -714,7 +714,8 @@ def random_design(rng, env, thorough):
         fum = 2.5
     vp = dict(visit_type="random",
               patient_number=I(rng.choice([1, 1, 2, 3, 5, 8, 13] + ([40] if thorough else []))),
-              first_visit_mean=rng.choice([F(0.0), I(0), F(-2.5), F(1.25), I(3)]),
+              # around onset, and far after / before it (saturated curves: values exactly 0 or 1 in single precision)
+              first_visit_mean=rng.choice([F(0.0), I(0), F(-2.5), F(1.25), I(3), I(40), F(100.0), F(-60.0)]),
               first_visit_std=rng.choice([F(0.0), I(0), F(0.4), F(1.0), I(2)]),
               time_follow_up_mean=I(fum) if isinstance(fum, int) else F(fum),
               time_follow_up_std=rng.choice([F(0.0), I(0), F(0.5), I(1)]),
@@ -734,7 +735,7 @@ def table_design(rng, env):
     ids = rng.sample(range(0, 40), n_ind) if int_ids else rng.sample(["p1", "p2", "a", "b", "sub-10", "07", "x y", "z"], n_ind)
     rows = []
     for i in ids:
-        t = rng.choice([55.0, 62.5, 70.0, 81.25]) + rng.randrange(0, 1000) / 1000
+        t = rng.choice([55.0, 62.5, 70.0, 81.25, 81.25, 110.0, 180.0, 5.0]) + rng.randrange(0, 1000) / 1000
         for _ in range(rng.choice([1, 2, 3, 4, 6])):
             kind = rng.random()
             if kind < 0.25 and rows and rows[-1][0] == i:
